@@ -22,7 +22,7 @@ use hydro_lang::sim::{SimReceiver, SimSender};
 pub const META: PropMeta = PropMeta {
     id: "C34",
     quick_runs: 40_000,
-    thorough_runs: 100_000_000,
+    thorough_runs: 40_000_000,
     rule: "each run picks a program (atomic counter; two writers; network hop; keyed tutorial counter; non-atomic negative control), draws a client script from the run seed (<=6 increments, <=5 reads; increments are sent in bursts, after each burst a seeded number of acknowledgements is awaited; reads are sent in between) and 4096 decision bytes for CompiledSim::fuzz_repro. History: every read remembers how many acknowledgements the client had observed when the read was sent. Distinct = distinct hash of (program, script, decision log); non-trivial = at least one read was sent after an observed acknowledgement AND the schedule ran more than two ticks.",
     time_unit: "scheduled ticks",
     real: &[
